@@ -12,7 +12,9 @@
     here; p-values with scipy from the model's exact t^2 and df; index tuples from the reported p / t;
     the aggregates summary_pairwise_indices / columns_scale_mean_pairwise_indices are one entry per test
     object, in order.  Applies when columns_base is 1-D (categorical rows) and table_margin is a scalar
-    or one value per column; other shapes are counted, not compared.
+    or one value per column; other shapes are counted, not compared.  Where the model's t is infinite (a
+    division by an exact zero) only the magnitude is compared: IEEE takes the sign from the signed zero
+    divisor, Base/XQ.v does not model signed zeros (counted: infinite_t_sign_not_compared).
   * Model/OverlapBases.v - which planes of cube.overlaps / cube.valid_overlaps feed the overlap test:
     selected_of / valid_of evaluated in Coq on the cube's (public) overlaps / valid_overlaps tensors are
     compared with the (private) cube_overlaps.selected_bases / .valid_bases of the slice and with the
@@ -217,7 +219,12 @@ def _cmp_stats(what, names, tests, n, d, io, fails):
             return
         for j in range(n):
             io["lg_cells"] = io.get("lg_cells", 0) + 1
-            if not core.close(_tabs(T[j]), mt[j]):
+            if mt[j] in ("inf", "-inf") and math.isinf(float(T[j])):
+                # a division by an exact zero: IEEE gives the infinity the sign of the SIGNED zero divisor
+                # (here e.g. sqrt(-0.0) from (n - 1) * 0.0 with n < 1), the model (Base/XQ.v: signed zero is
+                # not modelled) the sign of the dividend; only the magnitude is compared, and counted
+                io["lg_signed_zero"] = io.get("lg_signed_zero", 0) + 1
+            elif not core.close(_tabs(T[j]), mt[j]):
                 fails.append(("lg-%s-t" % what, {"test": c, "col": j, "impl_t": float(T[j]), "model_t_abs_t": mt[j]}))
                 return
             if not core.close(float(D[j]), mdf[j]):
@@ -278,6 +285,9 @@ def compare(kind, d, aux, case, io, fails):
 
 
 def distribution(io, rep):
+    if io.get("lg_signed_zero"):
+        rep.cov["skipped_near_threshold"] += io["lg_signed_zero"]
+        rep.dist("legacy_leg:infinite_t_sign_not_compared(signed zero divisor)", io["lg_signed_zero"])
     for k in ("lg_cells", "lg_sets", "lg_overlap_mats"):
         if io.get(k):
             rep.dist("legacy_leg:" + k, io[k])
